@@ -4314,3 +4314,102 @@ func indexOfLookup(ls []*ssa.Lookup, l *ssa.Lookup) int {
 	}
 	return 0
 }
+
+// IDX-KEYVAR (C01): a literal key does not hide the patterns with a variable in key position.
+func ruleIdxKeyVar(w *World, r *Report) {
+	r.Rule("IDX-KEYVAR", "PatternIndex.mod files a pattern pair whose key is a variable under the anonymous key \"?\" of the node (checked).  Therefore PatternIndex.searchPairs looks under \"?\" for every event key, not only when no pattern mentions the event's key literally: with the `key present` outcome of its lookup of the event's key forced, the lookup of \"?\" is still reachable.  Otherwise the rule {\"?p\":2} is skipped for the event {\"a\":2} as soon as some rule mentions \"a\"", 1)
+	mod := w.Method("core", "PatternIndex", "mod")
+	sp := w.Method("core", "PatternIndex", "searchPairs")
+	key := "fn=" + fname(sp)
+	isQ := func(v ssa.Value) bool { s, ok := constString(v); return ok && s == "?" }
+	files := false
+	allInstrs(mod, func(in ssa.Instruction) {
+		// k = "?" reaches a lookup / update of a String map: a phi or store of the constant
+		switch t := in.(type) {
+		case *ssa.Phi:
+			for _, e := range t.Edges {
+				if isQ(e) {
+					files = true
+				}
+			}
+		case *ssa.Store:
+			if isQ(t.Val) {
+				files = true
+			}
+		case *ssa.Lookup:
+			if isQ(t.Index) {
+				files = true
+			}
+		case *ssa.MapUpdate:
+			if isQ(t.Key) {
+				files = true
+			}
+		}
+	})
+	if !files {
+		r.exempt("IDX-KEYVAR", key, w.Pos(mod.Pos()), "premise fails: mod does not file variable keys under \"?\"; not decided by this rule")
+		return
+	}
+	var qLookups []ssa.Instruction
+	absent := map[bedge]bool{}
+	nKeyLookups := 0
+	for _, b := range sp.Blocks {
+		for _, in := range b.Instrs {
+			if lk, ok := in.(*ssa.Lookup); ok && isQ(lk.Index) {
+				if _, isMap := lk.X.Type().Underlying().(*types.Map); isMap {
+					qLookups = append(qLookups, in)
+				}
+			}
+		}
+		if len(b.Instrs) == 0 {
+			continue
+		}
+		ifi, ok := b.Instrs[len(b.Instrs)-1].(*ssa.If)
+		if !ok {
+			continue
+		}
+		ct, ok := decodeIf(ifi)
+		if !ok {
+			continue
+		}
+		ex, ok := resolveSpill(ct.V).(*ssa.Extract)
+		if !ok || ex.Index != 1 {
+			continue
+		}
+		lk, ok := ex.Tuple.(*ssa.Lookup)
+		if !ok || !lk.CommaOk {
+			continue
+		}
+		if _, isC := lk.Index.(*ssa.Const); isC {
+			continue
+		}
+		n, f, _, isField := loadedField(resolveSpill(lk.X))
+		if !isField || typeKey(n) != "core.PatternIndex" || f != "String" {
+			continue
+		}
+		// only the node's own key map (receiver), not the value map of the key node
+		nKeyLookups++
+		if ct.TrueWhen == "true" {
+			absent[bedge{b, 1}] = true
+		} else if ct.TrueWhen == "false" {
+			absent[bedge{b, 0}] = true
+		}
+	}
+	if len(qLookups) == 0 {
+		r.violation("IDX-KEYVAR", key, w.Pos(sp.Pos()), "searchPairs never looks under the anonymous key \"?\": patterns with a variable in key position are never found")
+		return
+	}
+	isQL := func(in ssa.Instruction) bool {
+		for _, q := range qLookups {
+			if q == in {
+				return true
+			}
+		}
+		return false
+	}
+	if h, _ := reach(sp, nil, isQL, nil, edgeFilterOf(absent)); h == nil {
+		r.violation("IDX-KEYVAR", key, w.PosOf(qLookups[0]), "the anonymous key \"?\" is looked up only when the event's key is not a literal key of the node: a rule with a variable in key position is hidden by any rule that mentions the key")
+		return
+	}
+	r.ok("IDX-KEYVAR", key, w.PosOf(qLookups[0]), "the anonymous key is tried whether or not the event's key is a literal key ("+itoa(nKeyLookups)+" key lookup(s))")
+}
